@@ -2,8 +2,8 @@ INIT MInit
 NEXT MNext
 CONSTANTS
   Bounds <- BoundsQ
-  ReqSet <- ReqsFull
-  ReadAttrs <- Attrs
+  ReqSet <- ReqsSmall
+  ReadAttrs <- MidAttrs
   Depth = 0
   SharedUriSlot = FALSE
 INVARIANT MemoSound
